@@ -285,7 +285,19 @@ func c01Fail(env *Env, assert, class, detail string, c any) {
 		return
 	}
 	env.fail(assert, class, detail, c)
+	env.mu.Lock()
+	env.w.Flush() // a panic inside a goroutine of the library would lose the buffered lines
+	env.mu.Unlock()
 }
+
+// c01Count: coverage counters say what was EXERCISED (whether it passed or not)
+func c01Count(env *Env, class string) {
+	env.mu.Lock()
+	env.classes[class]++
+	env.mu.Unlock()
+}
+
+func c01Pass(env *Env) { atomic.AddInt64(&env.checked, 1) }
 
 func isEol(c byte) bool { return c == '\n' || c == '\r' }
 
@@ -332,6 +344,7 @@ func c01CheckChunked(env *Env, c *c01Case, B int, variant string, starts map[int
 	cl := c01TagClass(c, B)
 	rc := *c
 	rc.B, rc.Variant, rc.Stage = B, variant, "chunked"
+	c01Count(env, cl)
 	chunks, st := c01Chunks(c.Fmt, c01Reader(variant, data, int64(B)*7919+int64(len(data))), B)
 	if st == "skipped" {
 		return
@@ -341,6 +354,11 @@ func c01CheckChunked(env *Env, c *c01Case, B int, variant string, starts map[int
 			B, variant, len(data), c.Fmt, st, len(chunks), fatalMessages()), rc)
 		return
 	}
+	nc := len(chunks)
+	if nc > 3 {
+		nc = 3
+	}
+	c01Count(env, fmt.Sprintf("%s/chunks=%d", c.Fmt, nc))
 	for k, ck := range chunks {
 		if ck.order != k {
 			c01Fail(env, "C01.chunk.order", cl, fmt.Sprintf("B=%d: chunk %d carries order %d", B, k, ck.order), rc)
@@ -376,14 +394,7 @@ func c01CheckChunked(env *Env, c *c01Case, B int, variant string, starts map[int
 		c01Fail(env, "C01.chunked."+field, cl, fmt.Sprintf("B=%d %s, %d chunks: %s", B, variant, len(chunks), d), rc)
 		return
 	}
-	env.ok(cl)
-	n := len(chunks)
-	if n > 3 {
-		n = 3
-	}
-	env.mu.Lock()
-	env.classes[fmt.Sprintf("%s/chunks=%d", c.Fmt, n)]++
-	env.mu.Unlock()
+	c01Pass(env)
 }
 
 func c01Drain(it obiiter.IBioSequence) (orders []int, recs []c01Rec, status string) {
@@ -481,7 +492,7 @@ func c01TmpFile(ext string) string {
 }
 
 // c01CheckWhole: the text as one chunk, option "no qualities", the readers with several workers, kseq.
-func c01CheckWhole(env *Env, c *c01Case, heavy bool) {
+func c01CheckWhole(env *Env, c *c01Case) {
 	data := []byte(c.Text)
 	cl := c.Fmt + "/whole"
 	rc := *c
@@ -497,12 +508,23 @@ func c01CheckWhole(env *Env, c *c01Case, heavy bool) {
 			c01Fail(env, assert+"."+field, cl, "whole file as one chunk: "+d, rc)
 			return
 		}
-		env.ok(cl)
+		c01Pass(env)
 	}
+	c01Count(env, cl)
 	run("C01.whole", true, c.Recs)
 	if c.Fmt == "fastq" {
+		c01Count(env, "fastq/noqual")
 		run("C01.noqual", false, c.Recsnoq)
 	}
+}
+
+// c01CheckReaders: the goroutines of the library itself (a panic there ends the process: run after the
+// chunk-level checks, and only if they found nothing).
+func c01CheckReaders(env *Env, c *c01Case, heavy bool) {
+	data := []byte(c.Text)
+	cl := c.Fmt + "/whole"
+	rc := *c
+	rc.Stage = "readers"
 	// the readers (1 MiB / 128 MiB buffers: one chunk), 1..4 parsing workers
 	for _, w := range []int{1, 3} {
 		if (c.Fmt == "genbank" || c.Fmt == "embl") && !heavy {
@@ -544,10 +566,12 @@ func c01CheckWhole(env *Env, c *c01Case, heavy bool) {
 			c01Fail(env, "C01.reader."+field, cl, fmt.Sprintf("Read%s with %d workers: %s", c.Fmt, w, d), rc)
 			continue
 		}
-		env.ok(c.Fmt + "/reader")
+		c01Count(env, c.Fmt+"/reader")
+		c01Pass(env)
 	}
 	// the second FASTA/FASTQ parser: kseq (the stdin path of the commands)
 	if c.Fmt == "fasta" || c.Fmt == "fastq" {
+		c01Count(env, c.Fmt+"/kseq")
 		path := c01TmpFile("." + c.Fmt)
 		if err := os.WriteFile(path, data, 0o644); err != nil {
 			fmt.Fprintln(os.Stderr, err)
@@ -580,7 +604,7 @@ func c01CheckWhole(env *Env, c *c01Case, heavy bool) {
 			c01Fail(env, "C01.kseq."+field, c.Fmt+"/kseq/"+eol, "kseq C reader (ReadFastSeqFromFile): "+d, rc)
 			return
 		}
-		env.ok(c.Fmt + "/kseq")
+		c01Pass(env)
 	}
 }
 
@@ -612,22 +636,23 @@ func replayC01(env *Env) {
 		heavy  bool
 		b0, b1 int
 	}
-	var items []item
+	var items, readers []item
 	for i := range cases {
 		c := &cases[i]
-		if c.B > 0 { // replay of one reported violation
-			if c.Stage == "whole" {
-				items = append(items, item{c: c, whole: true, heavy: true})
-			} else {
-				items = append(items, item{c: c, b0: c.B, b1: c.B})
-			}
+		if c.Stage == "readers" { // replay of one reported violation
+			readers = append(readers, item{c: c, heavy: true})
 			continue
 		}
 		if c.Stage == "whole" {
-			items = append(items, item{c: c, whole: true, heavy: true})
+			items = append(items, item{c: c, whole: true})
 			continue
 		}
-		items = append(items, item{c: c, whole: true, heavy: i%heavyEvery == 0})
+		if c.B > 0 {
+			items = append(items, item{c: c, b0: c.B, b1: c.B})
+			continue
+		}
+		items = append(items, item{c: c, whole: true})
+		readers = append(readers, item{c: c, heavy: i%heavyEvery == 0})
 		n := len(c.Text)
 		for b := 2; b <= n+1; b += 64 {
 			e := b + 63
@@ -640,7 +665,7 @@ func replayC01(env *Env) {
 	parallel(len(items), 0, func(i int) {
 		it := items[i]
 		if it.whole {
-			c01CheckWhole(env, it.c, it.heavy)
+			c01CheckWhole(env, it.c)
 			return
 		}
 		starts := map[int]bool{}
@@ -661,6 +686,11 @@ func replayC01(env *Env) {
 			}
 		}
 	})
+	if atomic.LoadInt64(&env.failed) == 0 || len(items) == 0 {
+		parallel(len(readers), 0, func(i int) { c01CheckReaders(env, readers[i].c, readers[i].heavy) })
+	} else {
+		env.emit(map[string]any{"note": "the reader-level checks (goroutines of the library) were skipped: the chunk-level checks already failed"})
+	}
 	for i := 0; i < len(cases); i += 1 + len(cases)/3 {
 		c := cases[i]
 		env.sample(map[string]any{"fmt": c.Fmt, "shapes": c.Idx, "text": c.Text, "starts": c.Starts, "expected": c.Recs})
